@@ -31,7 +31,10 @@ type C04Scenario struct {
 	Retry    bool     `json:"retry"`    // with WrongPin: the same controller then enters the right code on the same connection
 	Pipeline bool     `json:"pipeline"` // requests are pipelined: the head of the next request is sent before the previous response is read
 	Reqs     []C04Req `json:"reqs"`
-	Sched    []uint16 `json:"sched"`
+	// Bystander > 0: somebody else tries to pair at the same time on another connection, with a
+	// wrong setup code, that many times. It must not keep the controller from pairing.
+	Bystander int      `json:"bystander,omitempty"`
+	Sched     []uint16 `json:"sched"`
 }
 
 func genC04(rt *rapid.T) interface{} {
@@ -56,6 +59,9 @@ func genC04(rt *rapid.T) interface{} {
 	for i := 0; i < n; i++ {
 		k := rapid.SampledFrom([]string{"acc", "get", "put"}).Draw(rt, "kind")
 		sc.Reqs = append(sc.Reqs, C04Req{Kind: k, N: rapid.IntRange(1, 120).Draw(rt, "n")})
+	}
+	if rapid.IntRange(0, 3).Draw(rt, "bystander") == 0 {
+		sc.Bystander = rapid.IntRange(1, 3).Draw(rt, "nby")
 	}
 	sc.Sched = genSched(rt, 500)
 	return sc
@@ -94,6 +100,22 @@ func runC04(t *testing.T, sci interface{}) *Outcome {
 				fail = fmt.Sprintf(f, a...)
 				failSig = sig
 			}
+		}
+		if sc.Bystander > 0 {
+			bkp := w.Keypair()
+			w.Sim.Go("bystander", func() {
+				bc, _ := w.NewClient("bystander")
+				wrong := "111-22-333"
+				if wrong == fmtPin(sc.Pin) {
+					wrong = "111-22-334"
+				}
+				for i := 0; i < sc.Bystander && !w.Sim.InTeardown(); i++ {
+					w.Sim.Count("fault.concurrent_pair_setup_by_another_peer")
+					if _, err := bc.PairSetup(wrong, "bystander", bkp); err != nil {
+						return
+					}
+				}
+			})
 		}
 		w.Sim.Go("ctl", func() {
 			defer func() { done = true }()
